@@ -23,6 +23,13 @@ theorem ReadsFn.of_some {α β : Type} {f g : α → β} (h : ∀ a, f a = g a) 
 theorem Reads.none {α : Type} (v : α) : Reads (none : Option α) v := by intro _ h; cases h
 theorem ReadsFn.none {α β : Type} (g : α → β) : ReadsFn (none : Option (α → β)) g := by intro _ h; cases h
 
+/-- Equal outcomes, where two panics count as equal whatever their site labels. -/
+def Tie.SameUpToSite {α : Type} : Outcome α → Outcome α → Prop
+  | .ok x, .ok y => x = y
+  | .err j, .err k => j = k
+  | .panic _, .panic _ => True
+  | _, _ => False
+
 /-- A statement about all bytes from the statement about all `n < 256`. -/
 theorem forall_uint8_of_fin {p : UInt8 → Prop} (h : ∀ n : Fin 256, p (UInt8.ofNat n.val)) : ∀ c : UInt8, p c := by
   intro c
